@@ -22,6 +22,10 @@ if "--new" in sys.argv and os.path.exists("/verif/selftest_result.json"):
     done = {r["case"] for r in json.load(open("/verif/selftest_result.json")) if r["status"] == "DETECTED"}
     cases = [c for c in cases if c[0] not in done]
 
+if os.environ.get("SELFTEST_CASES"):   # comma-separated case names (seeded/C01-11,...): re-run exactly these
+    want = set(os.environ["SELFTEST_CASES"].split(","))
+    cases = [c for c in cases if c[0] in want]
+
 REPLAYS = {}
 
 def run(case):
@@ -62,7 +66,7 @@ for (name, pid, patch, metaf), status, obls in results:
         json.dump(m, open(metaf, "w"), indent=1)
 print(f"{det}/{len(results)} detected")
 new = [{"case": n, "property": pid, "status": st, "failing_obligations": ob[:4], "replayed_inputs": REPLAYS.get(n, [])} for (n, pid, _, _), st, ob in results]
-if ("--new" in sys.argv or sel or "--mutants-only" in sys.argv) and os.path.exists("/verif/selftest_result.json"):
+if ("--new" in sys.argv or sel or "--mutants-only" in sys.argv or os.environ.get("SELFTEST_CASES")) and os.path.exists("/verif/selftest_result.json"):
     old = [r for r in json.load(open("/verif/selftest_result.json")) if r["case"] not in {x["case"] for x in new}]
     new = sorted(old + new, key=lambda r: r["case"])
 json.dump(new, open("/verif/selftest_result.json", "w"), indent=1)
